@@ -208,7 +208,7 @@ func doCorrupt(t *task, res *result, progress func()) {
 			break
 		}
 		masks := t.Masks
-		if len(t.HdrMasks) > 0 && (structural == nil || (off < len(structural) && structural[off])) {
+		if len(t.HdrMasks) > 0 && ((structural == nil && off < 12) || (structural != nil && off < len(structural) && structural[off])) {
 			masks = t.HdrMasks
 		}
 		for _, m := range masks {
